@@ -299,6 +299,7 @@ Holds(e, name) ==
          \A k \in 1..Len(o.utility) :
             LET u == o.utility[k] IN u.abc = Utility(u.method, u.x, u.y, u.z, u.rev)
     [] name = "X_Integral" -> o.integral = DomainIntegral(g, V, FieldOf(g, cf.phi))
+    [] name = "X_BuilderForms" -> \A k \in DOMAIN o.builderforms : o.builderforms[k]
     [] name = "X_MeshIndex" -> MeshIndex(g, o.meshindex.nums, o.meshindex.corners, o.meshindex.edges)
     [] name = "C04_DiffInterior" -> InteriorRowsOnly(g, MatOf(o.Mdiff))
     [] name = "C04_ConvInterior" -> InteriorRowsOnly(g, MatOf(o.Mconv))
